@@ -33,7 +33,7 @@ func cliCheck(res *sched.Result, w *cliWorld) (finds []explore.Finding, outcome 
 			}
 		}
 		if doBlocked {
-			add("C10/do-never-returns", "Do is still blocked when nothing can move any more: %v; %s", res.Blocked, w.logString())
+			add("C10,C15/do-never-returns", "Do is still blocked when nothing can move any more: %v; %s", res.Blocked, w.logString())
 		} else {
 			add("C10,C15/deadlock", "deadlock: %v; %s", res.Blocked, w.logString())
 		}
@@ -221,7 +221,7 @@ func cliCheck(res *sched.Result, w *cliWorld) (finds []explore.Finding, outcome 
 				if !w.agentStartFailed {
 					add("C10/bad-argument/"+cls, "%s: handler got an agent start error that was never injected; %s", name, w.logString())
 				}
-			case cls == "ErrTransactionExists" && sc.DupIDs:
+			case cls == "ErrTransactionExists" && (sc.DupIDs || w.agentStartFailed):
 			default:
 				add("C10/bad-argument/"+cls, "%s: handler got %v; %s", name, hr.Err, w.logString())
 			}
